@@ -85,6 +85,7 @@ class PriorityModel:
     def m_block(self, interp, obj, args, kwargs, fr):
         sid = self._sid(args, kwargs)
         self._need(interp, obj, sid, fr, "block")
+        interp.unit_call_requires("PriorityTree.block", fr)
         obj.fields["active"] = z3.Store(obj.fields["active"], sid, z3.BoolVal(False))
 
     def m_unblock(self, interp, obj, args, kwargs, fr):
